@@ -22,7 +22,7 @@ Pool == << E(H_name, "str", FALSE),                  \*  1
            E(H_elements_H, "num", FALSE),            \*  5
            E(H_element_Pt_pad, "num", FALSE),        \*  6
            E(T_formula, "formula", FALSE),           \*  7
-           E(T_vib_wavenumber, "num", TRUE),         \*  8
+           E(T_vib_wavenumber, "wav", TRUE),         \*  8: positive, negative (imaginary) and zero
            E(T_rot_temperature, "num", TRUE),        \*  9
            E(H_list_sites, "mix", TRUE),             \* 10
            E(H_list_w_0, "num", FALSE),              \* 11
@@ -45,7 +45,23 @@ Pool == << E(H_name, "str", FALSE),                  \*  1
            E(H_list_w_11, "num", FALSE),             \* 27
            E(H_list_w_29, "mix", FALSE),             \* 28
            E(H_dict_misc_10, "num", FALSE),          \* 29: key "10"
-           E(H_dict_misc_a11, "mix", FALSE) >>       \* 30: key "a11"
+           E(H_dict_misc_a11, "mix", FALSE),         \* 30: key "a11"
+           \* audit round: every documented header, parameters, cell types
+           E(T_atoms, "atoms", FALSE),               \* 31
+           E(T_vib_outcar, "outcar", FALSE),         \* 32
+           E(<<>>, "mix", TRUE),                     \* 33: a column without header ("Unnamed: k")
+           E(H_flag, "bool", FALSE),                 \* 34
+           E(H_when, "date", FALSE),                 \* 35
+           E(H_uni, "num", FALSE),                   \* 36: non-ASCII header padded with NBSP / tab
+           E(H_x_1, "num", FALSE),                   \* 37: an ordinary header that is meant to be dotted
+           E(H_element_dash_O, "num", FALSE),        \* 38: only with delimiter "-"
+           E(H_elements_dash_Pt, "num", FALSE),      \* 39: only with delimiter "-"
+           E(H_nasa_a_low_1, "num", FALSE), E(H_nasa_a_low_2, "num", FALSE), E(H_nasa_a_low_3, "num", FALSE),
+           E(H_nasa_a_low_4, "num", FALSE), E(H_nasa_a_low_5, "num", FALSE),                    \* 40-44
+           E(H_nasa_a_high_0, "num", FALSE), E(H_nasa_a_high_1, "num", FALSE), E(H_nasa_a_high_2, "num", FALSE),
+           E(H_nasa_a_high_4, "num", FALSE), E(H_nasa_a_high_5, "num", FALSE), E(H_nasa_a_high_6, "num", FALSE), \* 45-50
+           E(H_list_flags, "bd", TRUE),              \* 51: booleans / date-times / text in a list
+           E(H_dict_misc_flag, "bd", FALSE) >>       \* 52
 
 Pick(s, k) == s[(k % Len(s)) + 1]
 NumVal(r, c) == LET n == 100 * r + c IN
@@ -58,6 +74,17 @@ CellVal(kind, r, c) ==
    CASE kind = "num" -> NumVal(r, c)
      [] kind = "big" -> Num(DecNorm(100 + 10 * r + c, 17))                       \* 1.11e19 .. 1.35e19
      [] kind = "str" -> StrVal(r, c)
+     [] kind = "wav" -> LET n == 100 * r + c  q == (r + c) % 4 IN
+                        IF q = 0 THEN ZeroN ELSE IF q = 1 THEN Num(DecNorm(10 * n + 5, -1))
+                        ELSE IF q = 2 THEN Num(DecNorm(-25 * n, -2)) ELSE Num(DecOfInt(n))
+     [] kind = "bool" -> [t |-> "b", v |-> << ((r + c) % 2) >>]
+     [] kind = "date" -> [t |-> "t", v |-> << 2000 + r, c, 10 + r, ((r + c) % 24), 5 * r, c >>]
+     [] kind = "bd" -> LET q == (r + c) % 3 IN
+                       IF q = 0 THEN [t |-> "b", v |-> << (r % 2) >>]
+                       ELSE IF q = 1 THEN [t |-> "t", v |-> << 1990 + r, c, 1 + r, 0, 0, 0 >>]
+                       ELSE StrVal(r, c)
+     [] kind = "atoms" -> Str(Pick(<<V_CO2, V_at_rel, V_at_abs, V_at_pad>>, r + c))
+     [] kind = "outcar" -> Str(Pick(<<V_oc_a, V_oc_b>>, r + c))
      [] kind = "mix" -> IF (r + c) % 2 = 0 THEN NumVal(r, c) ELSE StrVal(r, c)
      \* formulas repeat down a column: the same text and the same text padded differently
      [] kind = "formula" -> Str(IF c % 2 = 1 THEN <<F_CO, F_CO_pad, F_CO>>[r]
@@ -72,21 +99,33 @@ CellVal(kind, r, c) ==
 LayoutOK(s) == \A i \in 1..Len(s), j \in 1..Len(s) : i < j /\ s[i] = s[j] => Pool[s[i]].rep
 Layouts(idx, lo, hi) == {s \in UNION {[1..k -> idx] : k \in lo..hi} : LayoutOK(s)}
 Patterns(nr, nc) == {p \in [1..nr -> [1..nc -> BOOLEAN]] : \E k \in 1..nc : p[nr][k]}
-Sheet(lay, nr, pat) ==
-   [headers |-> [k \in 1..Len(lay) |-> Pool[lay[k]].h],
+\* the OUTCAR files the sheets can name: modes around both cut-offs used (0 and 100), an imaginary
+\* mode, a mode of exactly 0 and of exactly 100 cm-1
+Mode(k, w) == [k |-> k, w |-> w]
+MCFiles == {<<V_oc_a, <<Mode("f", DecNorm(30431, -1)), Mode("i", DecNorm(4005, -1)), Mode("f", DecOfInt(55)),
+                        Mode("f", <<0, 0>>), Mode("f", DecOfInt(100)), Mode("f", DecNorm(10001, -2))>>>>,
+            <<V_oc_b_key, <<Mode("i", DecOfInt(12)), Mode("f", DecNorm(9999, -2)), Mode("i", DecNorm(5, -1))>>>>}
+MCOpt == [DefaultOpt EXCEPT !.files = MCFiles]
+SheetO(lay, nr, pat, opt) ==
+   [opt |-> opt,
+    headers |-> [k \in 1..Len(lay) |-> Pool[lay[k]].h],
     rows |-> [rr \in 1..nr |-> [k \in 1..Len(lay) |->
                  IF pat[rr][k] THEN CellVal(Pool[lay[k]].kind, rr, k) ELSE EmptyCell]]]
+Sheet(lay, nr, pat) == SheetO(lay, nr, pat, MCOpt)
 \* structured emptiness masks for the wide layouts
 Mask(k, nc) == [j \in 1..nc |-> CASE k = 1 -> TRUE [] k = 2 -> j % 2 = 1 [] k = 3 -> j % 2 = 0
                                   [] k = 4 -> j = 1 [] k = 5 -> j = nc [] OTHER -> j # 3]
 \* a group: a layout, a row count and how the emptiness patterns are drawn
-G(lay, nr, how) == [lay |-> lay, nr |-> nr, how |-> how]
+GO(lay, nr, how, opt) == [lay |-> lay, nr |-> nr, how |-> how, opt |-> opt]
+G(lay, nr, how) == GO(lay, nr, how, MCOpt)
 MCGroupSheets(g) ==
-   IF g.how = "all" THEN {Sheet(g.lay, g.nr, p) : p \in Patterns(g.nr, Len(g.lay))}
-   ELSE IF g.how = "masks" THEN {Sheet(g.lay, g.nr, [rr \in 1..g.nr |-> Mask(m[rr], Len(g.lay))]) :
+   IF g.how = "all" THEN {SheetO(g.lay, g.nr, p, g.opt) : p \in Patterns(g.nr, Len(g.lay))}
+   ELSE IF g.how = "masks" THEN {SheetO(g.lay, g.nr, [rr \in 1..g.nr |-> Mask(m[rr], Len(g.lay))], g.opt) :
                                    m \in [1..g.nr -> 1..6]}
-   ELSE {[headers |-> [k \in 1..Len(g.lay) |-> g.lay[k]],                     \* "texts": given headers
+   ELSE IF g.how = "norows" THEN {SheetO(g.lay, 0, <<>>, g.opt)}                \* header (and comment) only
+   ELSE {[opt |-> g.opt, headers |-> [k \in 1..Len(g.lay) |-> g.lay[k]],        \* "texts": given headers
           rows |-> <<[k \in 1..Len(g.lay) |-> NumVal(1, k)]>>]}
+GroupsOfO(lays, rowCounts, opt) == {GO(l, nr, "all", opt) : l \in lays, nr \in rowCounts}
 GroupsOf(lays, rowCounts) == {G(l, nr, "all") : l \in lays, nr \in rowCounts}
 
 Wide == { <<1, 18, 20, 8, 8>>, <<8, 4, 8, 5, 8>>, <<15, 17, 16, 2, 3>>, <<10, 13, 10, 14, 10>>,
@@ -98,6 +137,25 @@ Rep(k, n) == [j \in 1..n |-> k]        \* n repetitions of one header: pandas ap
 FormulaMix == {7, 4, 6}                \* formula, element.O (overrides O), element.Pt (adds Pt)
 Core == {18, 20, 3, 8, 10, 4}          \* the columns that interact most
 Core2 == Core \cup {5, 7, 13, 14, 19, 23}
+
+\* audit round: atoms, vib_outcar (+ min_frequency_cutoff / include_imaginary), a column without
+\* header, booleans and date-times, non-ASCII / dotted ordinary headers, delimiter "-", every NASA
+\* index, sheets without data rows
+OptCut == [MCOpt EXCEPT !.cutoff = DecOfInt(100), !.imag = TRUE]
+OptImag == [MCOpt EXCEPT !.imag = TRUE]
+OptDash == [MCOpt EXCEPT !.delim = 45]
+OutcarLays == {<<32>>, <<8, 32>>, <<32, 8>>, <<8, 32, 8>>, <<1, 32, 8>>}
+AuditGroups(x) ==
+   GroupsOf(Layouts({31, 1}, 1, 2), {1, 2})
+   \cup UNION {GroupsOfO(OutcarLays, {2}, o) : o \in {MCOpt, OptCut, OptImag}}
+   \cup GroupsOfO({<<8, 8>>, <<8, 1>>}, {2}, OptCut)              \* the options without a vib_outcar column
+   \cup GroupsOf(Layouts({33, 1, 8}, 2, 2), {2})
+   \cup GroupsOf(Layouts({34, 35, 2, 51, 52}, 1, 2), {2}) \cup GroupsOf({<<34, 35>>, <<51, 51>>}, {3})
+   \cup GroupsOf(Layouts({36, 37, 1}, 2, 2), {2})
+   \cup GroupsOfO(Layouts({38, 39, 1, 13}, 2, 2), {2}, OptDash)
+   \cup {G(<<15, 40, 41, 42, 43, 44, 16>>, 2, "masks"), G(<<50, 49, 48, 17, 47, 46, 45>>, 2, "masks"),
+         G(<<45, 15, 46, 40, 47, 41, 17, 42, 48, 43, 49, 44, 50, 16>>, 1, "masks")}
+   \cup {G(l, 0, "norows") : l \in {<<1>>, <<1, 8, 18>>, <<32, 31>>}}
 
 \* TLC evaluates every parameterless constant definition at start-up, so the group sets take a
 \* dummy argument and the configuration chooses one with the constant SetName.
@@ -111,11 +169,12 @@ QuickGroups(x) == GroupsOf(Layouts(1..24, 1, 2), {1, 2})
                   \cup {G(Rep(k, 12), 2, "masks") : k \in {8, 9, 10}}
                   \cup {G(Rep(k, 30), 1, "masks") : k \in {8, 10}}
                   \cup {G(<<1>> \o Rep(10, 11) \o <<8>> \o Rep(10, 2) \o Rep(8, 11), 2, "masks")}
+                  \cup AuditGroups(x)
 ThoroughGroups(x) == QuickGroups(x) \cup GroupsOf(Layouts(Core2, 3, 3), {2})
                      \cup GroupsOf(Layouts(Core, 4, 4), {2})
 \* the sheets the thorough tier replays into the code (a subset of ThoroughGroups)
 ThoroughCaseGroups(x) == QuickGroups(x) \cup GroupsOf(Layouts(Core \cup {5, 13, 23}, 3, 3), {2})
-SmallGroups(x) == GroupsOf(Layouts({1, 8, 18, 20, 23}, 1, 2), {1, 2})     \* for the rejected variants
+SmallGroups(x) == GroupsOf(Layouts({1, 8, 18, 20, 23}, 1, 2), {1, 2}) \cup GroupsOf(OutcarLays, {2})   \* for the rejected variants
 
 \* ---- headers outside the documented forms (MC_ExcelReader_wide.cfg: expected to be rejected)
 WideHeaders == {W_n_elements_extra, W_reformulated, W_natoms, W_nasa_note, W_playlist_x,
